@@ -566,6 +566,9 @@ def jobs(tier):
     from harness import C16
 
     js.append(Job("contract:transformed", C16.job_transformed))
+    # ... and compiled from the dictionaries the paints hand to the COLR compiler: those must denote the same matrices
+    for kind, _ in C16._mk_transform_paints():
+        js.append(Job(f"to_ufo_paint[{kind}]", C16.job_to_ufo_paint, kind=kind))
     return js
 
 
